@@ -24,7 +24,7 @@ from ..facts import delivered_stop_reason, split_calls, static_holds, terminal_t
 
 ID = "C03"
 
-KNOBS = {
+KNOBS = {"p_firing_timeout": 0.12, 
     "modes": ["sync", "async"],
     "p_budget": 0.45, "p_abort": 0.3, "p_decisions": 0.5, "p_handler": 0.5,
     "p_generous": 0.45, "p_ok": 0.15, "p_hostile": 0.1, "p_overshoot": 0.35,
@@ -108,6 +108,11 @@ def check_call(scn: dict, cf, out: list) -> None:
                              {"call": cf.cid, "attempt": a.k, "entry": entry, "holds": why, "wasted": wasted,
                               "max_attempts": cfg["max_attempts"]}))
 
+        # ---- the sleep handler's answer is part of the biconditional: a configured handler must be asked
+        place = (scn.get("place") or {}).get("handler", "none")
+        if place != "none" and not S and not refused and (n_retry or sleeps) and not handlers and first_true is None:
+            out.append(V("R2", "retry continued without consulting the configured sleep handler",
+                         {"call": cf.cid, "attempt": a.k, "entry": entry, "slept": bool(sleeps)}))
         # ---- compute Continues(k)
         decision = handlers[0]["decision"] if handlers else "S"
         after_sleep_t = sleep_ends[-1]["t"] if sleep_ends else None
